@@ -22,7 +22,7 @@ ASSUMPTIONS = ["the independent model vf/model/{blssig,h2c,bls12381}.py and its 
                "hashlib.sha256 is correct"]
 ENGINE = "hypothesis"
 TECHNIQUE = ("differential property-based testing (Hypothesis) against an independent implementation of the IETF draft anchored by published vectors; cross-suite call sequences")
-_REQ = ["cross_suite_sequence", "sign:msg_contains_own_pk", "sign:basic", "sign:aug", "sign:pop", "pop_prove", "aggregate:n>=2", "anchor:eth_sig", "anchor:eth_agg",
+_REQ = ["sign:derived_tag", "cross_suite_sequence", "sign:msg_contains_own_pk", "sign:basic", "sign:aug", "sign:pop", "pop_prove", "aggregate:n>=2", "anchor:eth_sig", "anchor:eth_agg",
         "anchor:eth_pk", "sign:sk>=200b", "sign:msg=empty", "sign:msg=56-64", "aggregate:non_subgroup", "aggregate:prefix_sums_to_identity", "aggregate:result_y_im=0"]
 REQUIRED_LABELS = {"quick": _REQ, "thorough": _REQ}
 
@@ -47,6 +47,23 @@ def o_sign(ctx, case):
               f"SkToPk = {pk!r}, draft: compress(sk*G1) = {want_pk.hex()}")
     sig = S.Sign(sk, msg)
     want = blssig.sign(suite, sk, msg)
+    if case.get("tag") is not None:
+        # the same through a suite derived with an application tag: the draft's value under THAT tag
+        tag = unhx(case["tag"])
+        A = sc.derived_suite(suite, tag)
+        if A is None:
+            ctx.label("sign:derived_suites_refused")
+        else:
+            got_a = A.Sign(sk, msg)
+            want_a = B.signature_bytes(blssig.core_sign_point(sk, want_pk + msg if suite == "aug" else msg, tag))
+            ctx.check(got_a == want_a, "sign", "derived_suite_signature", case,
+                      f"{S.__name__} derived with DST={tag!r}: Sign is not the draft's value under that tag")
+            if suite == "pop":
+                ctx.check(A.PopProve(sk) == B.signature_bytes(blssig.core_sign_point(sk, want_pk, b"APP-POP")), "sign",
+                          "derived_suite_proof", case, "PopProve of a derived suite does not use its POP_TAG")
+            ctx.check(S.Sign(sk, msg) == want, "sign", "stock_after_derived", case,
+                      "the stock suite's Sign changed after a derived suite was used")
+            ctx.label("sign:derived_tag")
     ctx.check(isinstance(sig, bytes) and sig == want, "sign", "signature", case,
               f"{S.__name__}.Sign = {sig.hex() if isinstance(sig, bytes) else sig!r}, draft value = {want.hex()}")
     if "expect_sig" in case:
@@ -154,7 +171,9 @@ def s_sign(big):
         d["msg"] = hx([pk + m[:40], pk, pk + pk, m[:8] + pk][k - 1])       # the signer's key bytes inside the message
         d["own_pk"] = True
         return d
-    return st.tuples(base, st.sampled_from([0, 0, 0, 0, 1, 2, 3, 4])).map(own_pk_prefix)
+    with_tag = st.tuples(st.tuples(base, st.sampled_from([0, 0, 0, 0, 1, 2, 3, 4])).map(own_pk_prefix),
+                         st.one_of(st.none(), st.none(), st.none(), st.none(), st.sampled_from(sc.APP_TAGS).map(hx)))
+    return with_tag.map(lambda t: t[0] if t[1] is None else dict(t[0], tag=t[1]))
 
 
 def s_aggregate():
@@ -204,6 +223,7 @@ def t_sign(ctx, shard, nshards, n):
             ex.append({"suite": suite, "sk": sk, "msg": ""})
             ex.append({"suite": suite, "sk": sk, "msg": hx(b"\xa5" * 64)})
         ex.append({"suite": suite, "sk": 7, "msg": hx(blssig.sk_to_pk(7) + b"tail"), "own_pk": True})
+        ex.append({"suite": suite, "sk": 9, "msg": hx(b"derived"), "tag": hx(sc.APP_TAGS[0])})
         ex.append({"suite": suite, "sk": R - 1, "msg": hx(blssig.sk_to_pk(R - 1)), "own_pk": True})
     drive(ctx, f"sign{shard}", s_sign(ctx.tier == "thorough"), lambda c: o_sign(ctx, c), n, ex[shard::nshards],
           shrink=False)
